@@ -12,6 +12,14 @@ def facts : Facts :=
   { nodeG := allGuards, edgeG := allGuards, branchG := allGuards,
     branchGuarded := true, branchPropagates := true, compileMutates := false, compileChecksTypes := true }
 
+/-- `addEdgeWithMappings` records entry / exit edges inside `if !noControl { … }` only -/
+def entryExitInControlBlock : Bool := true
+
+/-- `Workflow.compile` checks that the end nodes of a recorded branch were declared (the good
+    value; the unrepaired source dereferences the missing entry: finding
+    `C20:panic:workflow-compile:branch-end-undeclared`) -/
+def wfBranchEndsChecked : Bool := true
+
 /-- fields of `g` that `compile` may assign (only the flag) -/
 def compileAssigns : List String := ["compiled"]
 
